@@ -80,3 +80,88 @@ theorem coverage : Gen.deny.untranslated.map (·.1) = ["New", "SystemNow"] ∧
   decide
 
 end TieDeny
+
+
+namespace TieDenyE2E
+open Deny TieDeny
+
+/-! ## End to end: the property theorems, stated of histories of the TRANSLATED code
+
+`genStep` runs one register operation with the functions translated from `deny.go` (each call may see a different
+map iteration order); `genRun` a whole history from the empty store. The request-level operations `denyReq` /
+`allowReq` apply the handlers' parameter guards (hand-modelled, C09/C11) and then call the translated method. -/
+
+/-- store-level operations: the ones that are methods of `deny.Store` -/
+def storeOp : Op → Bool
+  | .denyReq _ _ | .allowReq _ _ => false
+  | _ => true
+
+def genStep (w : Go.World) (g : Gen.deny.Store) : Op → Gen.deny.Store
+  | .allow id e => Gen.deny.Store.Allow w g id e
+  | .deny id e => Gen.deny.Store.Deny w g id e
+  | .prune => Gen.deny.Store.Prune w g
+  | .setNow t => Gen.deny.Store.SetNowFunc w g (fun _ => t)
+  | .denyReq id e => if id = "" then g else if e < g.Now () then g else Gen.deny.Store.Deny w g id e
+  | .allowReq id e => if id = "" then g else if e < g.Now () then g else Gen.deny.Store.Allow w g id e
+
+/-- `wf i` is the world (iteration order) of the i-th call -/
+def genRun (wf : Nat → Go.World) : Nat → Gen.deny.Store → List Op → Gen.deny.Store
+  | _, g, [] => g
+  | i, g, op :: ops => genRun wf (i + 1) (genStep (wf i) g op) ops
+
+theorem genStep_tie (w : Go.World) (hw : w.OrdOk) (r : Reg) (h : Inv r) (op : Op) :
+    genStep w (toGen r) op = toGen (step r op) := by
+  cases op with
+  | allow id e => exact allow_tie w r id e
+  | deny id e => exact deny_tie w r id e
+  | prune => exact prune_tie w hw r h.nda h.ndd
+  | setNow t => exact setNow_tie w r t
+  | denyReq id e =>
+    simp only [genStep, step, toGen]
+    by_cases h1 : id = "" <;> by_cases h2 : e < r.now <;> simp [h1, h2] <;> rfl
+  | allowReq id e =>
+    simp only [genStep, step, toGen]
+    by_cases h1 : id = "" <;> by_cases h2 : e < r.now <;> simp [h1, h2] <;> rfl
+
+theorem genRun_tie (wf : Nat → Go.World) (hwf : ∀ i, (wf i).OrdOk) (ops : List Op) (i : Nat) (r : Reg) (h : Inv r) :
+    genRun wf i (toGen r) ops = toGen (run ops r) := by
+  induction ops generalizing i r with
+  | nil => rfl
+  | cons op ops ih =>
+    simp only [genRun, run, List.foldl_cons]
+    rw [genStep_tie (wf i) (hwf i) r h op]
+    exact ih (i + 1) (step r op) (step_inv r op h)
+
+/-- what the translated store says about an id -/
+def genStatus (g : Gen.deny.Store) (id : String) : Status :=
+  match KV.lookup g.DenyList id with
+  | some e => .denied e
+  | none => match KV.lookup g.AllowList id with
+    | some e => .allowed e
+    | none => .absent
+
+/-- **C10 for the code as translated today**: after ANY history of register operations, with ANY map iteration orders,
+    the translated store's verdict on every id is the latest decision not yet pruned (the one-cell specification) -/
+theorem translated_register_refines_cell (wf : Nat → Go.World) (hwf : ∀ i, (wf i).OrdOk) (ops : List Op) (id : String) :
+    genStatus (genRun wf 0 (toGen {}) ops) id = (spec id ops).1 := by
+  rw [genRun_tie wf hwf ops 0 {} inv_init]
+  exact reg_refines_cell ops id
+
+/-- … in particular the latest deny wins, whatever came before -/
+theorem translated_latest_deny_wins (wf : Nat → Go.World) (hwf : ∀ i, (wf i).OrdOk) (ops : List Op) (id : String) (e : Int) :
+    Gen.deny.Store.IsDenied (wf (ops.length + 1)) (genRun wf 0 (toGen {}) (ops ++ [.deny id e])) id = true := by
+  rw [genRun_tie wf hwf _ 0 {} inv_init, isDenied_tie]
+  have := reg_latest_wins_deny ops id e
+  simp only [status] at this
+  simp only [isDenied, KV.has]
+  cases hl : KV.lookup (run (ops ++ [.deny id e])).deny id with
+  | none => rw [hl] at this; cases hl2 : KV.lookup (run (ops ++ [.deny id e])).allow id <;> rw [hl2] at this <;> cases this
+  | some v => rfl
+
+/-- … and no id is ever on both lists of the translated store -/
+theorem translated_lists_disjoint (wf : Nat → Go.World) (hwf : ∀ i, (wf i).OrdOk) (ops : List Op) (id : String) :
+    KV.lookup (genRun wf 0 (toGen {}) ops).AllowList id = none ∨ KV.lookup (genRun wf 0 (toGen {}) ops).DenyList id = none := by
+  rw [genRun_tie wf hwf ops 0 {} inv_init]
+  exact (run_inv ops {} inv_init).disj id
+
+end TieDenyE2E
